@@ -1626,6 +1626,7 @@ func toStatementApi(s *oc.Statement) *api.Statement {
 			Name: s.Conditions.BgpConditions.MatchLargeCommunitySet.LargeCommunitySet,
 		}
 	}
+	cs.Origin = table.ToOriginApi(s.Conditions.BgpConditions.OriginEq)
 	if s.Conditions.BgpConditions.RouteType != "" {
 		cs.RouteType = api.Conditions_RouteType(s.Conditions.BgpConditions.RouteType.ToInt())
 	}
